@@ -407,7 +407,8 @@ class Impl:
                 args += ["-i", i]
             r = rt.run("verify", args, now, cwd)
         elif k == "flatten":
-            self.flat_n += 1
+            if not (op.get("same_dest") and self.flat_n):
+                self.flat_n += 1
             dest = os.path.join(self.base, "_flat%d" % self.flat_n)
             fopts = []
             for o2 in ("author_name", "author_email", "author_phone", "author_role", "location", "comment"):
